@@ -430,6 +430,18 @@ def r8_format_statements(ctx, rep):
            f"of a group (`3(i3)`) is recorded as a call of a procedure named `3`", py.nloc(node), witness=w)
 
 
+def r9_external_tables_keep_local_names(ctx, rep):
+    """tables of external modules keep their keys (shared with C06.R5)"""
+    from . import c06
+    c06.r5_externalised_tables(ctx, rep)
+
+
+def r10_inheritance_is_transitive(ctx, rep):
+    """bindings are looked up in the accumulated members of the parent type (shared with C07.R15)"""
+    from . import c07
+    c07.r15_inheritance_is_transitive(ctx, rep)
+
+
 RULES = [
     RuleSpec("C08.R5", r5_external_and_semicolons, "EXTERNAL handling order; exact `;` splitting (shared with C02.R3)", floor=2),
     RuleSpec("C08.R1", r1_not_scanned, "statements that must not be scanned", floor=15),
@@ -440,4 +452,6 @@ RULES = [
     RuleSpec("C08.R6", r6_protected_arrays_resolve, "protected variables are exported, so their element references resolve (shared with C06.R2)", floor=7),
     RuleSpec("C08.R7", r7_dependency_closure, "modules are correlated after everything nested procedures use (shared with C06.R3)", floor=5),
     RuleSpec("C08.R8", r8_format_statements, "labelled FORMAT statements are recognised with or without a blank before the parenthesis", floor=1),
+    RuleSpec("C08.R9", r9_external_tables_keep_local_names, "tables of external modules keep their keys (shared with C06.R5)", floor=1),
+    RuleSpec("C08.R10", r10_inheritance_is_transitive, "bindings are looked up in the accumulated members of the parent type (shared with C07.R15)", floor=1),
 ]
